@@ -107,7 +107,7 @@ def check_hist(run, exe):
     work = os.path.join(run.work, "dumps")
     os.makedirs(work, exist_ok=True)
     fmts = ["diskdump", "diskdump-pt", "elf", "lkcd", "sadump", "diskdump", "lkcd", "elf"]
-    special = ["lkcd-faroff", "diskdump-split-never", "diskdump-pt-far"]   # a few per run: sparse > 4 GiB LKCD, file sets on the read(2) path
+    special = ["lkcd-faroff", "diskdump-split-never", "diskdump-pt-far", "diskdump-pt-excl"]   # a few per run: sparse > 4 GiB LKCD, file sets on the read(2) path
     run.cov["engines"]["hist"] = {"generated": ncases, "ops_per_history": nops, "formats": fmts}
     if run.replay_path:
         rp = core.json.load(open(run.replay_path))["replay"]
@@ -131,8 +131,8 @@ def check_hist(run, exe):
         batch = []
         for j in range(min(shard, ncases - done)):
             fmt = fmts[(done + j) % len(fmts)] if run.rng.random() < 0.8 else run.rng.choice(fmts)
-            if (done + j) % 20 in (3, 9, 15):
-                fmt = special[((done + j) // 6) % 3]
+            if (done + j) % 20 in (3, 9, 15, 18):
+                fmt = special[((done + j) // 3) % 4]
             if done + j == 5:
                 fmt = "diskdump-bigmap"
             dump_seed = run.rng.randrange(1 << 48)
